@@ -12,6 +12,27 @@
 // Ring.peekUintN, buffer.Retrieve(n) is a statement, `f, e := buffer.Peek(n)` defines the two slices. In such a function
 // the state (receiver, ring) survives a returned error, so the `error` result is a component of the tuple
 // (`Option String`) rather than `Res.err`; `Res.panic` remains the run-time panic.
+// Protocol-level one-shot decoders (protocolV1/protocolV2.UnpackBytes, Header.Metadata): structures GPacket / GMetadata and the
+// enum GPacketType are generated from the declarations in go/packet.go and go/metadata.go. TRUSTED MAPPINGS, each accepted in
+// exactly the shape named and in no other (anything else drops the function with an anchor-lost comment):
+//   - `x := defaultHeaderPool.Get()` (a package-level pool whose `Get` returns *Header) is the zero value of the generated
+//     header struct (that Get resets every field is the separate theorem C11.every_field_reset), and
+//     `defer func() { defaultHeaderPool.Put(x) }()` for such an x is skipped;
+//   - a local pointer to a modelled struct that is the only reference (pool Get, `&T{…}`) is a value variable; calling a
+//     translated pointer-receiver method on it rebinds it; a struct FIELD of pointer type (`Packet.Metadata *Metadata`) is the
+//     struct value itself, and a composite literal must then give that field from a translated function that returns `&T{…}`;
+//   - a named result of pointer type starts nil: it is `Option T` in the result, and is dereferenced only where the translator has
+//     seen the assignment `p = &T{…}` on every path to that point (otherwise the function drops out);
+//   - `a, e := x.M(args)` of a translated method with an error result, IMMEDIATELY followed by `if e != nil { err = e; return }`
+//     (err the named error result, e not used again): the callee's `Res.err` is propagated (other results of a returned error are
+//     dropped, as everywhere in error-as-`Res.err` mode), in the `.ok` arm e is nil;
+//   - `if lhs…, err = CALL; err != nil { return }` for the two EXTERNAL functions of the model:
+//     gzip.Decompress(b) ↦ `Gzip.decompress gz b` (parameter `gz : GzOracle`, second result must be blank), and
+//     p.UnmarshalMetadata(d) — after checking that go/packet.go defines it as `return p.Metadata.UnmarshalValues(data)` —
+//     ↦ `p.metadata.values ← Metadata.unmarshalValues lower d` (parameter `lower` = strings.ToLower; the loop stays hand-written);
+//   - a parameter `ctx *protocol.Context` is read only as `ctx.Codec` (parameter `codec : UInt8` in its place) or passed on;
+//   - `map[string]string` is the association list of the Metadata model; the string type protocol.PacketType is the generated
+//     enum of its declared constants plus `zero` for "".
 package main
 
 import (
@@ -23,10 +44,129 @@ import (
 	"strings"
 )
 
-type sfield struct{ goName, lean, ty string }
+type sfield struct {
+	goName, lean, ty string
+	ptr              bool // declared as *T: the struct value stands for the (never nil, unshared) pointer
+}
 
 var gstructs = map[string][]sfield{} // "v1.Header" -> fields (embedded structs flattened)
-var leanStruct = map[string]string{"protocol.Handshake": "GHandshake", "v1.Header": "V1Header", "v2.Header": "V2Header"}
+var leanStruct = map[string]string{"protocol.Handshake": "GHandshake", "v1.Header": "V1Header", "v2.Header": "V2Header",
+					"protocol.Metadata": "GMetadata", "protocol.Packet": "GPacket"}
+var structBad = map[string]string{} // struct key -> first field whose type is outside the subset
+
+const pairsTy = "List (Bytes × Bytes)"
+
+// underlying type text of `type name X` in pkg ("" if not found)
+func underlying(pkg, name string) string {
+	pk, ok := pkgs[pkg]
+	if !ok {
+		return ""
+	}
+	for _, f := range pk.files {
+		for _, d := range f.Decls {
+			gd, ok := d.(*ast.GenDecl)
+			if !ok || gd.Tok != token.TYPE {
+				continue
+			}
+			for _, sp := range gd.Specs {
+				ts := sp.(*ast.TypeSpec)
+				if ts.Name.Name == name {
+					return exprText(ts.Type)
+				}
+			}
+		}
+	}
+	return ""
+}
+
+type enumCase struct{ goName, lean, val string }
+
+// a string-typed named type: its declared constants, in source order
+func enumOf(pkg, name string) []enumCase {
+	pk := pkgs[pkg]
+	out := []enumCase{}
+	for _, f := range pk.files {
+		for _, d := range f.Decls {
+			gd, ok := d.(*ast.GenDecl)
+			if !ok || gd.Tok != token.CONST {
+				continue
+			}
+			for _, sp := range gd.Specs {
+				vs := sp.(*ast.ValueSpec)
+				if vs.Type == nil || exprText(vs.Type) != name {
+					continue
+				}
+				for i, n := range vs.Names {
+					if i < len(vs.Values) {
+						if bl, ok := vs.Values[i].(*ast.BasicLit); ok && bl.Kind == token.STRING {
+							if v, err := strconv.Unquote(bl.Value); err == nil && v != "" {
+								out = append(out, enumCase{n.Name, lowerFirst(n.Name), v})
+							}
+						}
+					}
+				}
+			}
+		}
+	}
+	return out
+}
+
+var leanEnum = map[string]string{"protocol.PacketType": "GPacketType"}
+
+// Lean type of a field / variable type expression written in package pkg ("" = outside the subset)
+func typeIn(pkg string, e ast.Expr) (ty string, ptr bool) {
+	switch x := e.(type) {
+	case *ast.StarExpr:
+		t, p := typeIn(pkg, x.X)
+		if _, isStruct := leanStructRev()[t]; isStruct && !p {
+			return t, true
+		}
+		return "", false
+	case *ast.ArrayType:
+		if x.Len == nil && (exprText(x.Elt) == "byte" || exprText(x.Elt) == "uint8") {
+			return "Bytes", false
+		}
+	case *ast.MapType:
+		if exprText(x.Key) == "string" && exprText(x.Value) == "string" {
+			return pairsTy, false
+		}
+	case *ast.SelectorExpr:
+		if id, ok := x.X.(*ast.Ident); ok {
+			if _, isPkg := pkgs[id.Name]; isPkg {
+				return typeIn(id.Name, x.Sel)
+			}
+		}
+	case *ast.Ident:
+		switch x.Name {
+		case "bool":
+			return "Bool", false
+		}
+		if ls, ok := leanStruct[pkg+"."+x.Name]; ok {
+			return ls, false
+		}
+		if u := underlying(pkg, x.Name); u != "" {
+			if u == "string" {
+				return leanEnum[pkg+"."+x.Name], false
+			}
+			if g, ok := goTy[u]; ok && width[g] != 0 {
+				return g, false
+			}
+			return "", false
+		}
+		if g, ok := goTy[x.Name]; ok && width[g] != 0 {
+			return g, false
+		}
+	}
+	return "", false
+}
+
+func leanStructRev() map[string]string {
+	m := map[string]string{}
+	for k, v := range leanStruct {
+		m[v] = k
+	}
+	return m
+}
 
 func lowerFirst(s string) string { return strings.ToLower(s[:1]) + s[1:] }
 
@@ -57,16 +197,12 @@ func structOf(pkg, name string) []sfield {
 						}
 						continue
 					}
-					ty := ""
-					switch exprText(fl.Type) {
-					case "bool":
-						ty = "Bool"
-					default:
-						ty = goTy[exprText(fl.Type)]
-					}
+					ty, ptr := typeIn(pkg, fl.Type)
 					for _, n := range fl.Names {
 						if ty != "" {
-							out = append(out, sfield{n.Name, lowerFirst(n.Name), ty})
+							out = append(out, sfield{n.Name, lowerFirst(n.Name), ty, ptr})
+						} else if _, seen := structBad[key]; !seen {
+							structBad[key] = n.Name + " " + exprText(fl.Type)
 						}
 					}
 				}
@@ -120,14 +256,33 @@ func errMessage(pk *pkgInfo, e ast.Expr) (string, bool) {
 
 type fres struct{ name, ty string } // ty "Err" for error
 
-type translated struct {
-	lean   string // Lean def name
-	recvTy string // Lean struct of the receiver ("" if none)
-	resTy  string // Lean type inside Res
+type tparam struct {
+	kind string // "val" | "ctx" | "ring"
+	ty   string
+	kept bool // false: the callee never reads it, it is not a parameter of the Lean definition
 }
+
+type translated struct {
+	lean    string // Lean def name
+	recvTy  string // Lean struct of the receiver ("" if none)
+	resTy   string // Lean type inside Res
+	recvPtr bool
+	recvW   bool     // the (pointer) receiver is written: first component of the result
+	params  []tparam // Go parameters in declaration order
+	needs   []string // leading environment parameters, a subset of envOrder
+	vals    []string // Lean types of the non-error results
+	hasErr  bool
+	errVal  bool
+	rings   int
+	fresh   bool // the single result is a pointer returned as `&T{…}` on every path: never nil, never shared
+}
+
+var envOrder = []string{"gz", "lower"}
+var envTy = map[string]string{"gz": "GzOracle", "lower": "Bytes → Bytes"}
 
 var fnTable = map[string]translated{} // "v1.Header.IsUnknownPacket" -> …
 var usesRing = false                  // some translated function takes a ring buffer: Gen/Funcs.lean imports OAP.Model.Ring
+var usesEnv = map[string]bool{}       // "gz" / "lower": some translated function calls an external function of the model (imports OAP.Model.Frame)
 
 type ftr struct {
 	tx
@@ -143,9 +298,27 @@ type ftr struct {
 	fresh   int
 	fail    string
 	hoisted []string
-	rings   []string // parameters of type *ringbuffer.RingBuffer (Lean type Ring), in declaration order
-	errVal  bool     // error results are tuple components (functions whose state survives an error)
+	rings   []string          // parameters of type *ringbuffer.RingBuffer (Lean type Ring), in declaration order
+	errVal  bool              // error results are tuple components (functions whose state survives an error)
+	ctx     string            // name of the parameter of type *protocol.Context ("" if none)
+	needs   map[string]bool   // "gz", "lower", "codec": environment parameters the body turned out to need
+	pooled  map[string]bool   // local variables defined by `pool.Get()`
+	ptrVars map[string]string // named results of pointer type -> Lean struct (the variable has type "Ptr:T" while nil, T once assigned &T{…})
+	joinDep int               // > 0 inside the branches of an `if` whose continuation is joined (not inlined)
+	file    *ast.File
 }
+
+func isCtxType(e ast.Expr) bool {
+	st, ok := e.(*ast.StarExpr)
+	if !ok {
+		return false
+	}
+	t := exprText(st.X)
+	return t == "protocol.Context" || t == "Context"
+}
+
+func isStructTy(ty string) bool { _, ok := leanStructRev()[ty]; return ok }
+func isPtrTy(ty string) bool    { return strings.HasPrefix(ty, "Ptr:") }
 
 func isRingType(e ast.Expr) bool {
 	st, ok := e.(*ast.StarExpr)
@@ -196,9 +369,28 @@ func (f *ftr) declare(name, ty string) {
 	if ty == "Bytes" {
 		f.ren["len("+name+")"] = [2]string{lname(name) + ".length", "Nat"}
 	}
+	f.declareFields(name, lname(name), ty)
+}
+
+// ren entries for the fields of a struct-typed variable (nested structs: packet.Metadata.Nonce)
+func (f *ftr) declareFields(goPath, leanPath, ty string) {
 	if fs, ok := gstructs[f.structKeyOfLean(ty)]; ok {
 		for _, fl := range fs {
-			f.ren[name+"."+fl.goName] = [2]string{lname(name) + "." + fl.lean, fl.ty}
+			if !fl.ptr { // a pointer field is never read as a value (that would be an alias), only through
+				f.ren[goPath+"."+fl.goName] = [2]string{leanPath + "." + fl.lean, fl.ty}
+			}
+			if isStructTy(fl.ty) {
+				f.declareFields(goPath+"."+fl.goName, leanPath+"."+fl.lean, fl.ty)
+			}
+		}
+	}
+}
+
+// removes the ren entries of a variable's fields (a pointer variable that is nil again / of unknown state)
+func (f *ftr) undeclareFields(name string) {
+	for k := range f.ren {
+		if strings.HasPrefix(k, name+".") {
+			delete(f.ren, k)
 		}
 	}
 }
@@ -245,20 +437,49 @@ func (f *ftr) leanTypeOf(e ast.Expr) string {
 		case "error":
 			return "Err"
 		}
+		if underlying(f.pkg, x.Name) == "string" { // a string-typed named type of this package: its generated enum or nothing
+			return leanEnum[f.pkg+"."+x.Name]
+		}
 		if g, ok := f.goType(x.Name); ok {
 			return g
+		}
+	case *ast.StarExpr: // pointer to a modelled struct (results only; see translateFunc)
+		if t, p := typeIn(f.pkg, x.X); t != "" && !p && isStructTy(t) {
+			return "Ptr:" + t
+		}
+	case *ast.SelectorExpr: // a named type of another package: only the generated enums (integer types keep the old route)
+		if t, p := typeIn(f.pkg, x); t != "" && !p && isEnumTy(t) {
+			return t
 		}
 	}
 	return ""
 }
 
+func isEnumTy(ty string) bool {
+	for _, v := range leanEnum {
+		if v == ty {
+			return true
+		}
+	}
+	return false
+}
+
 func zeroOf(ty string) string {
 	switch ty {
-	case "Bytes":
+	case "Bytes", pairsTy:
 		return "[]"
 	case "Bool":
 		return "false"
 	case "Err":
+		return "none"
+	}
+	if isEnumTy(ty) {
+		return ty + ".zero"
+	}
+	if isStructTy(ty) {
+		return "{}"
+	}
+	if isPtrTy(ty) {
 		return "none"
 	}
 	return "0"
@@ -267,6 +488,9 @@ func zeroOf(ty string) string {
 func leanTyText(ty string) string {
 	if ty == "Err" {
 		return "Option String"
+	}
+	if isPtrTy(ty) {
+		return "Option " + strings.TrimPrefix(ty, "Ptr:")
 	}
 	return ty
 }
@@ -376,21 +600,22 @@ func (f *ftr) hoist(e ast.Expr) string {
 				}
 				return
 			}
-			// method of the receiver that was translated before
-			if se, ok := x.Fun.(*ast.SelectorExpr); ok && exprText(se.X) == f.recv && len(x.Args) == 0 {
-				for _, rk := range f.recvKeys() {
-					if tr, ok := fnTable[rk+"."+se.Sel.Name]; ok {
-						arg := lname(f.recv)
-						if tr.recvTy != f.vars[f.recv] {
-							arg = "(" + lname(f.recv) + ".to" + tr.recvTy + ")"
-						}
-						t := f.tmp()
-						pre += fmt.Sprintf("Res.bind (%s %s) fun %s =>\n", tr.lean, arg, t)
-						f.ren[key] = [2]string{t, tr.resTy}
-						f.hoisted = append(f.hoisted, key)
-						return
-					}
+			// method of a struct variable (the receiver, a pooled header) that was translated before: a single value, no error,
+			// no written receiver — the other shapes are statements (see block)
+			if tr, _, found := f.lookupMethod(x); found {
+				if len(tr.vals) != 1 || tr.hasErr || (tr.recvPtr && tr.recvW) || tr.rings != 0 {
+					f.bad("call of %s in an expression", exprText(x.Fun))
+					return
 				}
+				p, app, ok := f.methodCall(x)
+				if !ok {
+					return
+				}
+				t := f.tmp()
+				pre += p + fmt.Sprintf("Res.bind (%s) fun %s =>\n", app, t)
+				f.ren[key] = [2]string{t, tr.vals[0]}
+				f.hoisted = append(f.hoisted, key)
+				return
 			}
 			for _, a := range x.Args {
 				walk(a)
@@ -408,6 +633,460 @@ func (f *ftr) recvKeys() []string {
 		out = append(out, "v1.Header")
 	}
 	return out
+}
+
+// lookupMethod recognises `<struct variable>.<translated method>(…)` (no side effects)
+func (f *ftr) lookupMethod(x *ast.CallExpr) (tr translated, recvVar string, found bool) {
+	se, isSel := x.Fun.(*ast.SelectorExpr)
+	if !isSel {
+		return
+	}
+	id, isId := se.X.(*ast.Ident)
+	if !isId || !isStructTy(f.vars[id.Name]) {
+		return
+	}
+	key := f.structKeyOfLean(f.vars[id.Name])
+	keys := []string{key}
+	if key == "v2.Header" { // method promotion from the embedded v1.Header
+		keys = append(keys, "v1.Header")
+	}
+	for _, rk := range keys {
+		if t, ok := fnTable[rk+"."+se.Sel.Name]; ok {
+			return t, id.Name, true
+		}
+	}
+	return
+}
+
+// methodCall returns the Lean application of a call recognised by lookupMethod (and the binds its arguments need)
+func (f *ftr) methodCall(x *ast.CallExpr) (pre, app string, ok bool) {
+	tr, rv, found := f.lookupMethod(x)
+	if !found {
+		f.bad("call %s", exprText(x.Fun))
+		return
+	}
+	arg := lname(rv)
+	if tr.recvTy != f.vars[rv] {
+		if tr.recvPtr && tr.recvW {
+			f.bad("promoted method %s writes the embedded struct", exprText(x.Fun))
+			return
+		}
+		arg = "(" + arg + ".to" + tr.recvTy + ")"
+	}
+	if len(x.Args) != len(tr.params) || x.Ellipsis.IsValid() {
+		f.bad("arity of %s", exprText(x.Fun))
+		return
+	}
+	app = tr.lean
+	for _, n := range tr.needs {
+		f.needs[n] = true
+		app += " " + n
+	}
+	app += " " + arg
+	for i, p := range tr.params {
+		a := x.Args[i]
+		aid, isId := a.(*ast.Ident)
+		switch {
+		case p.kind == "ctx":
+			if !isId || f.ctx == "" || aid.Name != f.ctx {
+				f.bad("context argument %s", exprText(a))
+				return
+			}
+			if p.kept {
+				f.needs["codec"] = true
+				app += " codec"
+			}
+		case p.kind != "val":
+			f.bad("argument %s of %s", exprText(a), exprText(x.Fun))
+			return
+		case !p.kept: // Go still evaluates the argument: only a plain variable is certain not to panic
+			if !isId {
+				f.bad("argument %s of a parameter the callee ignores", exprText(a))
+				return
+			}
+			if _, known := f.vars[aid.Name]; !known {
+				f.bad("argument %s of a parameter the callee ignores", exprText(a))
+				return
+			}
+		default:
+			p1, s := f.exprAs(a, p.ty)
+			pre += p1
+			app += " " + s
+		}
+	}
+	return pre, app, f.fail == ""
+}
+
+// enumConst: a declared constant of a string-typed named type with a generated enum
+func (f *ftr) enumConst(e ast.Expr) (string, string, bool) {
+	pkg, name := f.pkg, ""
+	switch x := e.(type) {
+	case *ast.Ident:
+		name = x.Name
+	case *ast.SelectorExpr:
+		if id, ok := x.X.(*ast.Ident); ok {
+			if _, isPkg := pkgs[id.Name]; isPkg {
+				pkg, name = id.Name, x.Sel.Name
+			}
+		}
+	}
+	if name == "" {
+		return "", "", false
+	}
+	if _, shadow := f.vars[name]; shadow && pkg == f.pkg {
+		return "", "", false
+	}
+	for tkey, lty := range leanEnum {
+		parts := strings.SplitN(tkey, ".", 2)
+		if parts[0] != pkg {
+			continue
+		}
+		for _, c := range enumOf(parts[0], parts[1]) {
+			if c.goName == name {
+				return lty + "." + c.lean, lty, true
+			}
+		}
+	}
+	return "", "", false
+}
+
+// structLit translates `T{Field: value, …}` of a modelled struct (keyed elements only; omitted fields are Go's zero values,
+// which are the defaults of the generated structure — except pointer fields, which must be given)
+func (f *ftr) structLit(cl *ast.CompositeLit) (pre, s, ty string) {
+	t, p := typeIn(f.pkg, cl.Type)
+	if t == "" || p || !isStructTy(t) {
+		return "", f.bad("composite literal of %s", exprText(cl.Type)), ""
+	}
+	key := f.structKeyOfLean(t)
+	kp := strings.SplitN(key, ".", 2)
+	fs := structOf(kp[0], kp[1])
+	if why, isBad := structBad[key]; isBad {
+		return "", f.bad("struct %s has a field outside the subset (%s)", key, why), t
+	}
+	given := map[string]bool{}
+	parts := []string{}
+	for _, el := range cl.Elts {
+		kv, ok := el.(*ast.KeyValueExpr)
+		if !ok {
+			return pre, f.bad("positional composite literal of %s", key), t
+		}
+		var fl *sfield
+		for i := range fs {
+			if fs[i].goName == exprText(kv.Key) {
+				fl = &fs[i]
+			}
+		}
+		if fl == nil || given[fl.goName] {
+			return pre, f.bad("field %s of %s", exprText(kv.Key), key), t
+		}
+		given[fl.goName] = true
+		if fl.ptr {
+			// the pointer must be fresh and non-nil: the result of a translated function that returns `&T{…}`
+			ce, isCall := kv.Value.(*ast.CallExpr)
+			if !isCall {
+				return pre, f.bad("pointer field %s from %s", fl.goName, exprText(kv.Value)), t
+			}
+			tr, _, found := f.lookupMethod(ce)
+			if !found || !tr.fresh || len(tr.vals) != 1 || tr.vals[0] != fl.ty || tr.hasErr || (tr.recvPtr && tr.recvW) || tr.rings != 0 {
+				return pre, f.bad("pointer field %s from %s", fl.goName, exprText(kv.Value)), t
+			}
+			p1, app, ok := f.methodCall(ce)
+			if !ok {
+				return pre, "sorryUntranslatable", t
+			}
+			tv := f.tmp()
+			pre += p1 + fmt.Sprintf("Res.bind (%s) fun %s =>\n", app, tv)
+			parts = append(parts, fl.lean+" := "+tv)
+			continue
+		}
+		p1, v := f.exprAs(kv.Value, fl.ty)
+		pre += p1
+		parts = append(parts, fl.lean+" := "+v)
+	}
+	for _, fl := range fs {
+		if fl.ptr && !given[fl.goName] {
+			return pre, f.bad("pointer field %s of %s left nil", fl.goName, key), t
+		}
+	}
+	return pre, "({ " + strings.Join(parts, ", ") + " } : " + t + ")", t
+}
+
+// addrLit: `&T{…}` of a modelled struct
+func addrLit(e ast.Expr) (*ast.CompositeLit, bool) {
+	u, ok := e.(*ast.UnaryExpr)
+	if !ok || u.Op != token.AND {
+		return nil, false
+	}
+	cl, ok := u.X.(*ast.CompositeLit)
+	return cl, ok
+}
+
+// fieldWrite: `root.f1.….fn = v` on the pointer receiver or on a local struct variable (the only reference to its struct)
+func (f *ftr) fieldWrite(l *ast.SelectorExpr, rhs func(ty string) (string, string)) string {
+	path := []string{}
+	var cur ast.Expr = l
+	for {
+		se, ok := cur.(*ast.SelectorExpr)
+		if !ok {
+			break
+		}
+		path = append([]string{se.Sel.Name}, path...)
+		cur = se.X
+	}
+	root, ok := cur.(*ast.Ident)
+	if !ok || !isStructTy(f.vars[root.Name]) || (root.Name == f.recv && !f.recvPtr) {
+		return f.bad("field assignment %s", exprText(l))
+	}
+	ty := f.vars[root.Name]
+	leanPaths, fields := []string{lname(root.Name)}, []string{}
+	for i, name := range path {
+		var fl *sfield
+		fs := gstructs[f.structKeyOfLean(ty)]
+		for j := range fs {
+			if fs[j].goName == name {
+				fl = &fs[j]
+			}
+		}
+		if fl == nil || (i < len(path)-1 && !isStructTy(fl.ty)) || (i == len(path)-1 && fl.ptr) {
+			return f.bad("field assignment %s", exprText(l))
+		}
+		fields = append(fields, fl.lean)
+		leanPaths = append(leanPaths, leanPaths[i]+"."+fl.lean)
+		ty = fl.ty
+	}
+	pre, v := rhs(ty)
+	upd := v
+	for i := len(fields) - 1; i >= 0; i-- {
+		upd = fmt.Sprintf("{ %s with %s := %s }", leanPaths[i], fields[i], upd)
+	}
+	if root.Name == f.recv {
+		f.recvW = true
+	}
+	return pre + fmt.Sprintf("let %s := %s\n", lname(root.Name), upd)
+}
+
+// isErrResult: the named error result of a function in error-as-Res.err mode
+func (f *ftr) isErrResult(name string) bool {
+	if !f.named || f.errVal || f.vars[name] != "Err" {
+		return false
+	}
+	for _, r := range f.results {
+		if r.name == name && r.ty == "Err" {
+			return true
+		}
+	}
+	return false
+}
+
+func isNeqNil(e ast.Expr, name string) bool {
+	be, ok := e.(*ast.BinaryExpr)
+	return ok && be.Op == token.NEQ && exprText(be.X) == name && exprText(be.Y) == "nil"
+}
+
+// `if e != nil { err = e; return }` with err the named error result
+func (f *ftr) isErrReturnIdiom(s ast.Stmt, e string) bool {
+	is, ok := s.(*ast.IfStmt)
+	if !ok || is.Init != nil || is.Else != nil || len(is.Body.List) != 2 || !isNeqNil(is.Cond, e) {
+		return false
+	}
+	as, ok := is.Body.List[0].(*ast.AssignStmt)
+	if !ok || as.Tok != token.ASSIGN || len(as.Lhs) != 1 || len(as.Rhs) != 1 || exprText(as.Rhs[0]) != e {
+		return false
+	}
+	lid, ok := as.Lhs[0].(*ast.Ident)
+	if !ok || !f.isErrResult(lid.Name) {
+		return false
+	}
+	rs, ok := is.Body.List[1].(*ast.ReturnStmt)
+	return ok && len(rs.Results) == 0
+}
+
+func mentions(stmts []ast.Stmt, name string) bool {
+	found := false
+	for _, s := range stmts {
+		ast.Inspect(s, func(n ast.Node) bool {
+			if id, ok := n.(*ast.Ident); ok && id.Name == name {
+				found = true
+			}
+			return true
+		})
+	}
+	return found
+}
+
+// a package-level variable of this package that is a header pool: the package has exactly one method `Get`, it returns *Header
+// and Header is a modelled struct. (That Get resets every field is C11.every_field_reset.)
+func (f *ftr) isHeaderPool(name string) bool {
+	if _, local := f.vars[name]; local {
+		return false
+	}
+	declared := false
+	gets, good := 0, 0
+	for _, fl := range f.pk.files {
+		for _, d := range fl.Decls {
+			switch x := d.(type) {
+			case *ast.GenDecl:
+				if x.Tok == token.VAR {
+					for _, sp := range x.Specs {
+						for _, n := range sp.(*ast.ValueSpec).Names {
+							if n.Name == name {
+								declared = true
+							}
+						}
+					}
+				}
+			case *ast.FuncDecl:
+				if x.Name.Name == "Get" && x.Recv != nil {
+					gets++
+					if x.Type.Results != nil && len(x.Type.Results.List) == 1 && exprText(x.Type.Results.List[0].Type) == "*Header" && len(x.Type.Params.List) == 0 {
+						good++
+					}
+				}
+			}
+		}
+	}
+	_, modelled := leanStruct[f.pkg+".Header"]
+	return declared && gets == 1 && good == 1 && modelled
+}
+
+// `P.Get()` on a header pool
+func (f *ftr) isPoolGet(e ast.Expr) bool {
+	ce, ok := e.(*ast.CallExpr)
+	if !ok || len(ce.Args) != 0 {
+		return false
+	}
+	se, ok := ce.Fun.(*ast.SelectorExpr)
+	if !ok || se.Sel.Name != "Get" {
+		return false
+	}
+	id, ok := se.X.(*ast.Ident)
+	return ok && f.isHeaderPool(id.Name)
+}
+
+// `defer func() { P.Put(v) }()` for a header pool P and a variable v that came from `P.Get()`
+func (f *ftr) isPoolPutDefer(d *ast.DeferStmt) bool {
+	fl, ok := d.Call.Fun.(*ast.FuncLit)
+	if !ok || len(d.Call.Args) != 0 || len(fl.Type.Params.List) != 0 || fl.Type.Results != nil || len(fl.Body.List) != 1 {
+		return false
+	}
+	es, ok := fl.Body.List[0].(*ast.ExprStmt)
+	if !ok {
+		return false
+	}
+	ce, ok := es.X.(*ast.CallExpr)
+	if !ok || len(ce.Args) != 1 {
+		return false
+	}
+	se, ok := ce.Fun.(*ast.SelectorExpr)
+	if !ok || se.Sel.Name != "Put" {
+		return false
+	}
+	pid, ok1 := se.X.(*ast.Ident)
+	vid, ok2 := ce.Args[0].(*ast.Ident)
+	return ok1 && ok2 && f.isHeaderPool(pid.Name) && f.pooled[vid.Name]
+}
+
+// the file of the function imports the repository's own gzip package under the name `gzip`
+func (f *ftr) importsRepoGzip() bool {
+	if f.file == nil {
+		return false
+	}
+	for _, im := range f.file.Imports {
+		p, _ := strconv.Unquote(im.Path.Value)
+		if strings.HasSuffix(p, "/openapi-protocol/go/gzip") && (im.Name == nil || im.Name.Name == "gzip") {
+			return true
+		}
+	}
+	return false
+}
+
+// go/packet.go: `func (p Packet) UnmarshalMetadata(data []byte) error { return p.Metadata.UnmarshalValues(data) }`
+func unmarshalMetadataIsForwarder() bool {
+	fd := findFunc(pkgs["protocol"], "Packet", "UnmarshalMetadata")
+	if fd == nil || fd.Body == nil || len(fd.Body.List) != 1 || len(fd.Recv.List[0].Names) != 1 || len(fd.Type.Params.List) != 1 || len(fd.Type.Params.List[0].Names) != 1 {
+		return false
+	}
+	rs, ok := fd.Body.List[0].(*ast.ReturnStmt)
+	if !ok || len(rs.Results) != 1 {
+		return false
+	}
+	want := fd.Recv.List[0].Names[0].Name + ".Metadata.UnmarshalValues(" + fd.Type.Params.List[0].Names[0].Name + ")"
+	return exprText(rs.Results[0]) == want && findFunc(pkgs["protocol"], "Metadata", "UnmarshalValues") != nil
+}
+
+// ifInit: `if lhs…, err = CALL; err != nil { return }` for the external functions of the model (see the header comment)
+func (f *ftr) ifInit(x *ast.IfStmt, rest []ast.Stmt, tail func() string) string {
+	as, ok := x.Init.(*ast.AssignStmt)
+	if !ok || as.Tok != token.ASSIGN || len(as.Rhs) != 1 || len(as.Lhs) == 0 || x.Else != nil || len(x.Body.List) != 1 {
+		return f.bad("if with init")
+	}
+	rs, ok := x.Body.List[0].(*ast.ReturnStmt)
+	if !ok || len(rs.Results) != 0 {
+		return f.bad("if with init: the body is not a bare return")
+	}
+	eid, ok := as.Lhs[len(as.Lhs)-1].(*ast.Ident)
+	if !ok || !f.isErrResult(eid.Name) || !isNeqNil(x.Cond, eid.Name) {
+		return f.bad("if with init: not `…, err = call; err != nil`")
+	}
+	ce, ok := as.Rhs[0].(*ast.CallExpr)
+	if !ok {
+		return f.bad("if with init: %s", exprText(as.Rhs[0]))
+	}
+	lhs := as.Lhs[:len(as.Lhs)-1]
+	out := ""
+	switch {
+	case exprText(ce.Fun) == "gzip.Decompress" && len(ce.Args) == 1 && len(lhs) == 2 && exprText(lhs[1]) == "_" && f.importsRepoGzip() &&
+		findFunc(pkgs["gzip"], "", "Decompress") != nil:
+		if _, shadow := f.vars["gzip"]; shadow {
+			return f.bad("gzip is a variable here")
+		}
+		pre, arg := f.exprAs(ce.Args[0], "Bytes")
+		f.dropHoisted()
+		f.needs["gz"] = true
+		t := f.tmp()
+		out = pre + fmt.Sprintf("Res.bind (Gzip.decompress gz %s) fun %s =>\n", arg, t)
+		switch l := lhs[0].(type) {
+		case *ast.SelectorExpr:
+			out += f.fieldWrite(l, func(ty string) (string, string) {
+				if ty != "Bytes" {
+					return "", f.bad("gzip.Decompress into %s", exprText(l))
+				}
+				return "", t
+			})
+		case *ast.Ident:
+			if f.vars[l.Name] != "Bytes" {
+				return f.bad("gzip.Decompress into %s", l.Name)
+			}
+			out += fmt.Sprintf("let %s : Bytes := %s\n", lname(l.Name), t)
+		default:
+			return f.bad("gzip.Decompress into %s", exprText(lhs[0]))
+		}
+	case len(lhs) == 0 && len(ce.Args) == 1:
+		se, isSel := ce.Fun.(*ast.SelectorExpr)
+		if !isSel || se.Sel.Name != "UnmarshalMetadata" {
+			return f.bad("if with init: %s", exprText(ce.Fun))
+		}
+		id, isId := se.X.(*ast.Ident)
+		if !isId || f.vars[id.Name] != "GPacket" || !unmarshalMetadataIsForwarder() {
+			return f.bad("UnmarshalMetadata on %s", exprText(se.X))
+		}
+		pre, arg := f.exprAs(ce.Args[0], "Bytes")
+		f.dropHoisted()
+		f.needs["lower"] = true
+		t := f.tmp()
+		out = pre + fmt.Sprintf("Res.bind (Metadata.unmarshalValues lower %s) fun %s =>\n", arg, t)
+		target := &ast.SelectorExpr{X: &ast.SelectorExpr{X: id, Sel: ast.NewIdent("Metadata")}, Sel: ast.NewIdent("Values")}
+		out += f.fieldWrite(target, func(ty string) (string, string) {
+			if ty != pairsTy {
+				return "", f.bad("Metadata.Values has type %s", ty)
+			}
+			return "", t
+		})
+	default:
+		return f.bad("if with init: %s", exprText(ce.Fun))
+	}
+	out += fmt.Sprintf("let %s : Option String := none\n", lname(eid.Name))
+	return out + f.block(rest, tail)
 }
 
 func (f *ftr) dropHoisted() {
@@ -428,6 +1107,13 @@ func (f *ftr) expr(e ast.Expr, want string) (string, string, string) {
 		}
 		if x.Name == "true" || x.Name == "false" {
 			return "", x.Name, "Bool"
+		}
+		if s, ty, ok := f.enumConst(x); ok {
+			return "", s, ty
+		}
+	case *ast.SelectorExpr:
+		if s, ty, ok := f.enumConst(x); ok {
+			return "", s, ty
 		}
 	case *ast.CompositeLit:
 		if f.leanTypeOf(x.Type) == "Bytes" {
@@ -512,7 +1198,15 @@ func (f *ftr) assigned(n ast.Node) []string {
 		case *ast.IndexExpr:
 			set[exprText(x.X)] = true
 		case *ast.SelectorExpr:
-			set[exprText(x.X)] = true
+			var cur ast.Expr = x
+			for { // packet.Metadata.Nonce = … writes the variable packet
+				se, ok := cur.(*ast.SelectorExpr)
+				if !ok {
+					break
+				}
+				cur = se.X
+			}
+			set[exprText(cur)] = true
 		}
 	}
 	ast.Inspect(n, func(m ast.Node) bool {
@@ -521,6 +1215,25 @@ func (f *ftr) assigned(n ast.Node) []string {
 			if x.Tok != token.DEFINE {
 				for _, l := range x.Lhs {
 					mark(l)
+				}
+			}
+			if len(x.Rhs) == 1 { // a pointer-receiver method may write its receiver variable
+				if ce, ok := x.Rhs[0].(*ast.CallExpr); ok {
+					if se, ok := ce.Fun.(*ast.SelectorExpr); ok {
+						if id, ok := se.X.(*ast.Ident); ok && isStructTy(f.vars[id.Name]) {
+							if tr, _, found := f.lookupMethod(ce); !found || (tr.recvPtr && tr.recvW) {
+								set[id.Name] = true
+							}
+						}
+					}
+				}
+			}
+		case *ast.ExprStmt:
+			if ce, ok := x.X.(*ast.CallExpr); ok {
+				if se, ok := ce.Fun.(*ast.SelectorExpr); ok { // any method call statement on a struct variable
+					if id, ok := se.X.(*ast.Ident); ok && isStructTy(f.vars[id.Name]) {
+						set[id.Name] = true
+					}
 				}
 			}
 		case *ast.IncDecStmt:
@@ -602,9 +1315,37 @@ func (f *ftr) block(stmts []ast.Stmt, tail func() string) string {
 		return fmt.Sprintf("let %s := %s %s 1\n", lname(id.Name), lname(id.Name), op) + cont()
 	case *ast.AssignStmt:
 		if len(x.Lhs) == 2 && len(x.Rhs) == 1 && x.Tok == token.DEFINE {
-			// f, e := buffer.Peek(n): the two slices of the model's Ring.peek
 			a, ok1 := x.Lhs[0].(*ast.Ident)
 			b, ok2 := x.Lhs[1].(*ast.Ident)
+			// data, e := header.UnpackBytes(ctx, bs) + `if e != nil { err = e; return }`: the callee's error is propagated
+			if ce, isCall := x.Rhs[0].(*ast.CallExpr); isCall && ok1 && ok2 {
+				if tr, rv, found := f.lookupMethod(ce); found {
+					if !tr.hasErr || tr.errVal || len(tr.vals) != 1 || tr.rings != 0 || a.Name == "_" || b.Name == "_" || a.Name == b.Name {
+						return f.bad("two-value definition from %s", exprText(ce.Fun))
+					}
+					if _, dup := f.vars[a.Name]; dup {
+						return f.bad("two-value definition re-uses %s", a.Name)
+					}
+					if _, dup := f.vars[b.Name]; dup {
+						return f.bad("two-value definition re-uses %s", b.Name)
+					}
+					if len(rest) == 0 || !f.isErrReturnIdiom(rest[0], b.Name) || mentions(rest[1:], b.Name) {
+						return f.bad("the error of %s is not returned at once (`if %s != nil { err = %s; return }`)", exprText(ce.Fun), b.Name, b.Name)
+					}
+					pre, app, ok := f.methodCall(ce)
+					if !ok {
+						return "sorryUntranslatable"
+					}
+					f.dropHoisted()
+					pat := lname(a.Name)
+					if tr.recvPtr && tr.recvW {
+						pat = "(" + lname(rv) + ", " + lname(a.Name) + ")"
+					}
+					f.declare(a.Name, tr.vals[0])
+					return pre + fmt.Sprintf("Res.bind (%s) fun %s =>\n", app, pat) + f.block(rest[1:], tail)
+				}
+			}
+			// f, e := buffer.Peek(n): the two slices of the model's Ring.peek
 			ring, m, args, ok3 := f.ringCall(x.Rhs[0])
 			if !ok1 || !ok2 || !ok3 || m != "Peek" || len(args) != 1 || a.Name == "_" || b.Name == "_" || a.Name == b.Name {
 				return f.bad("two-value definition %s", exprText(x.Rhs[0]))
@@ -630,6 +1371,15 @@ func (f *ftr) block(stmts []ast.Stmt, tail func() string) string {
 		switch l := x.Lhs[0].(type) {
 		case *ast.Ident:
 			if x.Tok == token.DEFINE {
+				if _, dup := f.vars[l.Name]; dup {
+					return f.bad("re-definition of %s (shadowing is outside the subset)", l.Name)
+				}
+				if f.isPoolGet(x.Rhs[0]) { // header := defaultHeaderPool.Get(): a fresh zero header (trusted mapping, see the header comment)
+					ty := leanStruct[f.pkg+".Header"]
+					f.declare(l.Name, ty)
+					f.pooled[l.Name] = true
+					return fmt.Sprintf("let %s : %s := {}\n", lname(l.Name), ty) + cont()
+				}
 				pre, rhs, ty := f.expr(x.Rhs[0], "")
 				if ty == "" || ty == "Int" {
 					ty = "Nat"
@@ -637,6 +1387,9 @@ func (f *ftr) block(stmts []ast.Stmt, tail func() string) string {
 				}
 				if ty == "Ring" {
 					return f.bad("alias of the ring pointer %s", exprText(x.Rhs[0]))
+				}
+				if isStructTy(ty) || isPtrTy(ty) {
+					return f.bad("copy or alias of a struct: %s", exprText(x.Rhs[0]))
 				}
 				f.dropHoisted()
 				f.declare(l.Name, ty)
@@ -648,6 +1401,23 @@ func (f *ftr) block(stmts []ast.Stmt, tail func() string) string {
 			}
 			if ty == "Ring" {
 				return f.bad("assignment to the ring pointer %s", l.Name)
+			}
+			if sty, isPtrVar := f.ptrVars[l.Name]; isPtrVar {
+				// packet = &protocol.Packet{…}: from here on the variable is known to be non-nil (a value of the struct)
+				cl, isLit := addrLit(x.Rhs[0])
+				if !isLit || x.Tok != token.ASSIGN || f.joinDep > 0 {
+					return f.bad("assignment to the pointer %s", l.Name)
+				}
+				pre, lit, lty := f.structLit(cl)
+				if lty != sty {
+					return f.bad("assignment to the pointer %s", l.Name)
+				}
+				f.dropHoisted()
+				f.declare(l.Name, sty)
+				return pre + fmt.Sprintf("let %s : %s := %s\n", lname(l.Name), sty, lit) + cont()
+			}
+			if isStructTy(ty) || isPtrTy(ty) {
+				return f.bad("assignment to the struct variable %s", l.Name)
 			}
 			if ty == "Err" {
 				if msg, ok := errMessage(f.pk, x.Rhs[0]); ok {
@@ -672,15 +1442,10 @@ func (f *ftr) block(stmts []ast.Stmt, tail func() string) string {
 			d := lname(exprText(l.X))
 			return p1 + p2 + fmt.Sprintf("Res.bind (Bytes.set %s %s %s) fun %s =>\n", d, i, v, d) + cont()
 		case *ast.SelectorExpr:
-			base := exprText(l.X)
-			n, ok := f.ren[exprText(l)]
-			if !ok || x.Tok != token.ASSIGN || base != f.recv || !f.recvPtr {
+			if x.Tok != token.ASSIGN {
 				return f.bad("field assignment %s", exprText(l))
 			}
-			pre, v := f.exprAs(x.Rhs[0], n[1])
-			f.recvW = true
-			fld := strings.TrimPrefix(n[0], lname(base)+".")
-			return pre + fmt.Sprintf("let %s := { %s with %s := %s }\n", lname(base), lname(base), fld, v) + cont()
+			return f.fieldWrite(l, func(ty string) (string, string) { return f.exprAs(x.Rhs[0], ty) }) + cont()
 		}
 		return f.bad("assignment to %s", exprText(x.Lhs[0]))
 	case *ast.ExprStmt:
@@ -764,9 +1529,14 @@ func (f *ftr) block(stmts []ast.Stmt, tail func() string) string {
 			return cont()
 		}
 		return f.block(append([]ast.Stmt{chain}, rest...), tail)
+	case *ast.DeferStmt:
+		if f.isPoolPutDefer(x) { // the pooled header goes back when the function returns: no effect on the results (trusted mapping)
+			return cont()
+		}
+		return f.bad("defer")
 	case *ast.IfStmt:
 		if x.Init != nil {
-			return f.bad("if with init")
+			return f.ifInit(x, rest, tail)
 		}
 		pre, cond := f.exprAs(x.Cond, "Bool")
 		f.dropHoisted()
@@ -811,12 +1581,14 @@ func (f *ftr) block(stmts []ast.Stmt, tail func() string) string {
 			}
 		}
 		join := func() string { return ".ok " + tuple(vs) }
+		f.joinDep++
 		sn := f.snap()
 		a := f.block(x.Body.List, join)
 		f.restore(sn)
 		sn = f.snap()
 		b := f.block(elseList, join)
 		f.restore(sn)
+		f.joinDep--
 		pat := tuple(vs)
 		if len(vs) == 0 {
 			pat = "(_ : Unit)"
@@ -888,6 +1660,34 @@ func (f *ftr) ret(results []ast.Expr) string {
 		if errStatic != "" {
 			continue
 		}
+		if strings.HasPrefix(r.ty, "Fresh:") { // unnamed pointer result: only `return &T{…}`
+			cl, isLit := addrLit(e)
+			if !isLit {
+				return f.bad("pointer result %s is not a fresh `&T{…}`", exprText(e))
+			}
+			p, s, lty := f.structLit(cl)
+			if lty != strings.TrimPrefix(r.ty, "Fresh:") {
+				return f.bad("pointer result %s", exprText(e))
+			}
+			pre += p
+			vals = append(vals, s)
+			continue
+		}
+		if isPtrTy(r.ty) { // named pointer result: nil (`none`) until the translator has seen `p = &T{…}`
+			id, isId := e.(*ast.Ident)
+			if !isId || f.ptrVars[id.Name] != strings.TrimPrefix(r.ty, "Ptr:") {
+				return f.bad("pointer result %s", exprText(e))
+			}
+			switch f.vars[id.Name] {
+			case r.ty:
+				vals = append(vals, lname(id.Name))
+			case f.ptrVars[id.Name]:
+				vals = append(vals, "(some "+lname(id.Name)+")")
+			default:
+				return f.bad("pointer result %s", exprText(e))
+			}
+			continue
+		}
 		p, s := f.exprAs(e, r.ty)
 		pre += p
 		vals = append(vals, s)
@@ -916,23 +1716,11 @@ func translateFunc(sp fspec) (string, string) {
 	if fd == nil || fd.Body == nil {
 		return "", "function not found"
 	}
-	f := &ftr{tx: tx{pk: pk, ren: map[string][2]string{}, intTy: "Nat"}, pkg: sp.pkg, vars: map[string]string{}}
-	name := sp.pkg + "_" + sp.fn
-	params := ""
-	if sp.recv != "" {
-		name = sp.pkg + "_" + sp.recv + "_" + sp.fn
-		f.recvKey = sp.pkg + "." + sp.recv
-		structOf(sp.pkg, sp.recv)
-		ls, ok := leanStruct[f.recvKey]
-		if !ok {
-			return "", "receiver struct not modelled"
-		}
-		fl := fd.Recv.List[0]
-		_, f.recvPtr = fl.Type.(*ast.StarExpr)
-		if len(fl.Names) == 1 {
-			f.recv = fl.Names[0].Name
-			f.declare(f.recv, ls)
-			params += fmt.Sprintf(" (%s : %s)", lname(f.recv), ls)
+	f := &ftr{tx: tx{pk: pk, ren: map[string][2]string{}, intTy: "Nat"}, pkg: sp.pkg, vars: map[string]string{},
+		needs: map[string]bool{}, pooled: map[string]bool{}, ptrVars: map[string]string{}}
+	for _, fl := range pk.files {
+		if fl.Pos() <= fd.Pos() && fd.End() <= fl.End() {
+			f.file = fl
 		}
 	}
 	used := map[string]bool{}
@@ -942,27 +1730,80 @@ func translateFunc(sp fspec) (string, string) {
 		}
 		return true
 	})
+	name := sp.pkg + "_" + sp.fn
+	recvParam := ""
+	if sp.recv != "" {
+		name = sp.pkg + "_" + sp.recv + "_" + sp.fn
+		f.recvKey = sp.pkg + "." + sp.recv
+		structOf(sp.pkg, sp.recv)
+		ls, ok := leanStruct[f.recvKey]
+		fl := fd.Recv.List[0]
+		recvUsed := len(fl.Names) == 1 && used[fl.Names[0].Name]
+		if !ok && recvUsed {
+			return "", "receiver struct not modelled"
+		}
+		if ok {
+			_, f.recvPtr = fl.Type.(*ast.StarExpr)
+			if len(fl.Names) == 1 {
+				f.recv = fl.Names[0].Name
+				f.declare(f.recv, ls)
+				recvParam = fmt.Sprintf(" (%s : %s)", lname(f.recv), ls)
+			}
+		} else {
+			f.recvKey = "" // a receiver the body never mentions (protocolV1, an empty struct): not a parameter
+		}
+	}
+	type pslot struct {
+		text  string
+		isCtx bool
+	}
+	slots := []pslot{}
+	tparams := []tparam{}
 	for _, p := range fd.Type.Params.List {
 		ty := f.leanTypeOf(p.Type)
+		kind := "val"
 		if isRingType(p.Type) {
-			ty = "Ring"
+			ty, kind = "Ring", "ring"
+		}
+		if isCtxType(p.Type) {
+			ty, kind = "Ctx", "ctx"
 		}
 		for _, n := range p.Names {
 			if !used[n.Name] {
+				tparams = append(tparams, tparam{kind, ty, false})
+				continue
+			}
+			if kind == "ctx" {
+				// the context is read only as ctx.Codec (parameter `codec` in its place) or handed on to a translated callee
+				if f.ctx != "" {
+					return "", "two context parameters"
+				}
+				f.ctx = n.Name
+				f.ren[n.Name+".Codec"] = [2]string{"codec", "UInt8"}
+				ast.Inspect(fd.Body, func(m ast.Node) bool {
+					if se, ok := m.(*ast.SelectorExpr); ok && exprText(se) == n.Name+".Codec" {
+						f.needs["codec"] = true
+					}
+					return true
+				})
+				slots = append(slots, pslot{"", true})
+				tparams = append(tparams, tparam{kind, ty, true}) // kept is settled after the body
 				continue
 			}
 			if ty == "Ring" {
 				f.rings = append(f.rings, n.Name)
 				f.errVal = true
 			}
-			if ty == "" {
+			if ty == "" || isPtrTy(ty) || isStructTy(ty) {
 				return "", "parameter type " + exprText(p.Type)
 			}
 			f.declare(n.Name, ty)
-			params += fmt.Sprintf(" (%s : %s)", lname(n.Name), ty)
+			slots = append(slots, pslot{fmt.Sprintf(" (%s : %s)", lname(n.Name), ty), false})
+			tparams = append(tparams, tparam{kind, ty, true})
 		}
 	}
 	pro := ""
+	fresh := false
 	if fd.Type.Results != nil {
 		for _, r := range fd.Type.Results.List {
 			ty := f.leanTypeOf(r.Type)
@@ -970,15 +1811,25 @@ func translateFunc(sp fspec) (string, string) {
 				return "", "result type " + exprText(r.Type)
 			}
 			if len(r.Names) == 0 {
+				if isPtrTy(ty) { // an unnamed pointer result must be returned as `&T{…}`: it is the struct value
+					ty = "Fresh:" + strings.TrimPrefix(ty, "Ptr:")
+					fresh = true
+				}
 				f.results = append(f.results, fres{"", ty})
 			}
 			for _, n := range r.Names {
 				f.named = true
 				f.results = append(f.results, fres{n.Name, ty})
 				f.declare(n.Name, ty)
+				if isPtrTy(ty) {
+					f.ptrVars[n.Name] = strings.TrimPrefix(ty, "Ptr:")
+				}
 				pro += fmt.Sprintf("let %s : %s := %s\n", lname(n.Name), leanTyText(ty), zeroOf(ty))
 			}
 		}
+	}
+	if fresh && len(f.results) != 1 {
+		return "", "pointer result among several results"
 	}
 	// does the function write its pointer receiver anywhere? (decides the result type before the body is emitted)
 	if f.recvPtr {
@@ -997,18 +1848,27 @@ func translateFunc(sp fspec) (string, string) {
 	if f.fail != "" {
 		return "", f.fail
 	}
-	tys := []string{}
+	tys, vals := []string{}, []string{}
 	if f.recvPtr && f.recvW {
 		tys = append(tys, f.vars[f.recv])
 	}
 	for range f.rings {
 		tys = append(tys, "Ring")
 	}
+	hasErr := false
 	for _, r := range f.results {
 		if r.ty != "Err" {
-			tys = append(tys, r.ty)
-		} else if f.errVal {
-			tys = append(tys, "Option String")
+			t := leanTyText(strings.TrimPrefix(r.ty, "Fresh:"))
+			if strings.Contains(t, " ") {
+				t = "(" + t + ")"
+			}
+			tys = append(tys, t)
+			vals = append(vals, strings.TrimPrefix(r.ty, "Fresh:"))
+		} else {
+			hasErr = true
+			if f.errVal {
+				tys = append(tys, "Option String")
+			}
 		}
 	}
 	resTy := "Unit"
@@ -1023,7 +1883,34 @@ func translateFunc(sp fspec) (string, string) {
 		key = sp.pkg + "." + sp.recv + "." + sp.fn
 		recvTy = leanStruct[f.recvKey]
 	}
-	fnTable[key] = translated{lean: name, recvTy: recvTy, resTy: resTy}
+	// parameters: the oracles the body needs first, then the receiver, then the Go parameters (ctx as `codec`, if read)
+	params, needs := "", []string{}
+	for _, n := range envOrder {
+		if f.needs[n] {
+			needs = append(needs, n)
+			params += fmt.Sprintf(" (%s : %s)", n, envTy[n])
+		}
+	}
+	params += recvParam
+	for _, sl := range slots {
+		if sl.isCtx {
+			if f.needs["codec"] {
+				params += " (codec : UInt8)"
+			}
+			continue
+		}
+		params += sl.text
+	}
+	for i := range tparams {
+		if tparams[i].kind == "ctx" && tparams[i].kept {
+			tparams[i].kept = f.needs["codec"]
+		}
+	}
+	for _, n := range needs {
+		usesEnv[n] = true
+	}
+	fnTable[key] = translated{lean: name, recvTy: recvTy, resTy: resTy, recvPtr: f.recvPtr, recvW: f.recvW, params: tparams, needs: needs,
+		vals: vals, hasErr: hasErr, errVal: f.errVal, rings: len(f.rings), fresh: fresh}
 	if len(f.rings) > 0 {
 		usesRing = true
 	}
@@ -1052,6 +1939,7 @@ func funcSpecs() []fspec {
 		{"v1", "Header", "IsUnknownPacket"}, {"v1", "Header", "length"}, {"v1", "Header", "Pack"}, {"v1", "Header", "UnpackBytes"},
 		{"v2", "Header", "length"}, {"v2", "Header", "Pack"}, {"v2", "Header", "UnpackBytes"},
 		{"v1", "Header", "Unpack"}, {"v2", "Header", "Unpack"},
+		{"v1", "Header", "Metadata"}, {"v1", "protocolV1", "UnpackBytes"}, {"v2", "protocolV2", "UnpackBytes"},
 	}
 }
 
@@ -1060,9 +1948,34 @@ func genFuncs() (string, []string) {
 	var w strings.Builder
 	lost := []string{}
 	usesRing = false
-	for _, k := range []string{"protocol.Handshake", "v1.Header", "v2.Header"} {
+	usesEnv = map[string]bool{}
+	// string-typed named types: an enum of the declared constants, `zero` for ""
+	for _, k := range []string{"protocol.PacketType"} {
+		parts := strings.SplitN(k, ".", 2)
+		cs := enumOf(parts[0], parts[1])
+		if underlying(parts[0], parts[1]) != "string" || len(cs) == 0 {
+			lost = append(lost, "type "+k+" (not a string type with declared constants)")
+			fmt.Fprintf(&w, "-- anchor-lost: type %s\n\n", k)
+			delete(leanEnum, k)
+			continue
+		}
+		doc := []string{}
+		for _, c := range cs {
+			doc = append(doc, fmt.Sprintf("%s = %q", c.goName, c.val))
+		}
+		fmt.Fprintf(&w, "/-- go/%s: type %s string; %s; zero = \"\" -/\ninductive %s where\n  | zero", parts[0], parts[1], strings.Join(doc, ", "), leanEnum[k])
+		for _, c := range cs {
+			fmt.Fprintf(&w, " | %s", c.lean)
+		}
+		w.WriteString("\n  deriving DecidableEq, Repr\n\n")
+	}
+	for _, k := range []string{"protocol.Handshake", "v1.Header", "v2.Header", "protocol.Metadata", "protocol.Packet"} {
 		parts := strings.SplitN(k, ".", 2)
 		fs := structOf(parts[0], parts[1])
+		if why, isBad := structBad[k]; isBad && (k == "protocol.Metadata" || k == "protocol.Packet") {
+			lost = append(lost, "type "+k+" (field "+why+")")
+			fmt.Fprintf(&w, "-- anchor-lost: type %s: field %s\n", k, why)
+		}
 		fmt.Fprintf(&w, "/-- go/%s: type %s struct (embedded structs flattened) -/\nstructure %s where\n", parts[0], parts[1], leanStruct[k])
 		for _, fl := range fs {
 			fmt.Fprintf(&w, "  %s : %s := %s\n", fl.lean, fl.ty, zeroOf(fl.ty))
@@ -1093,6 +2006,9 @@ func genFuncs() (string, []string) {
 	head := "-- GENERATED by /verif/extract (funcs.go) from the Go source of /repo — do not edit; rewritten by every check run\nimport OAP.Base\n"
 	if usesRing { // OAP/Model/Ring.lean imports OAP.Base only: no cycle
 		head += "import OAP.Model.Ring\n"
+	}
+	if len(usesEnv) > 0 { // external functions of the model: GzOracle / Gzip.decompress (OAP/Model/Frame.lean), Metadata.unmarshalValues
+		head += "import OAP.Model.Frame\n" // imports OAP.Base, OAP.Gen.Facts, OAP.Model.Metadata: no cycle
 	}
 	head += "namespace OAP.Gen.Fn\nopen OAP\n\n"
 	return head + w.String(), lost
